@@ -63,7 +63,7 @@ theorem count_liftPairs (nsp s1 s2 : Nat) (h1 : s1 < nsp) (h2 : s2 < nsp) (val :
     obtain ⟨a, _, rfl⟩ := List.mem_map.mp hm
     exact h (species_liftC nsp s1 s2 h1 h2 a)
 
-theorem count_flatMap_range_zero (n : Nat) (f : Nat → List Coup) (c : Coup)
+theorem count_flatMap_range_zero {α : Type} [BEq α] [LawfulBEq α] (n : Nat) (f : Nat → List α) (c : α)
     (hz : ∀ s, s < n → (f s).count c = 0) : ((List.range n).flatMap f).count c = 0 := by
   induction n with
   | zero => simp
@@ -71,7 +71,7 @@ theorem count_flatMap_range_zero (n : Nat) (f : Nat → List Coup) (c : Coup)
     rw [List.range_succ, List.flatMap_append, List.count_append, ih (fun s hs => hz s (by omega))]
     simp [hz n (by omega)]
 
-theorem count_flatMap_range_single (n : Nat) (f : Nat → List Coup) (c : Coup) (s0 : Nat) (hs0 : s0 < n)
+theorem count_flatMap_range_single {α : Type} [BEq α] [LawfulBEq α] (n : Nat) (f : Nat → List α) (c : α) (s0 : Nat) (hs0 : s0 < n)
     (hz : ∀ s, s < n → s ≠ s0 → (f s).count c = 0) : ((List.range n).flatMap f).count c = (f s0).count c := by
   induction n with
   | zero => omega
@@ -245,5 +245,83 @@ theorem countNeighbors_foldl (ps : List Coup) (u n0 : Nat) :
     rw [List.foldl_cons, ih]
     simp only [List.map_cons, List.count_cons]
     omega
+
+theorem count_flatMap_range_const {α : Type} [BEq α] [LawfulBEq α] (n : Nat) (f : Nat → List α) (c : α) (x : Nat)
+    (h : ∀ s, s < n → (f s).count c = x) : ((List.range n).flatMap f).count c = n * x := by
+  induction n with
+  | zero => simp
+  | succ n ih =>
+    rw [List.range_succ, List.flatMap_append, List.count_append, ih (fun s hs => h s (by omega))]
+    simp [h n (by omega)]
+    ring
+
+/-- multiplicity of `u` among `a * nsp + s` -/
+theorem count_map_lift (nsp s u : Nat) (hs : s < nsp) (l : List Nat) :
+    (l.map (fun a => a * nsp + s)).count u = if u % nsp = s then l.count (u / nsp) else 0 := by
+  split
+  · next h =>
+    have hu : u = (fun a => a * nsp + s) (u / nsp) := by
+      simp only []
+      rw [← h, Nat.mul_comm]; exact (Nat.div_add_mod u nsp).symm
+    have hinj : Function.Injective (fun a => a * nsp + s) := by
+      intro a b hab
+      simp only [] at hab
+      have := u_simple_of nsp a s hs
+      have h2 := u_simple_of nsp b s hs
+      unfold simpleUToSpeciesU at this h2
+      rw [← this, ← h2, hab]
+    conv_lhs => rw [hu]
+    exact List.count_map_of_injective l (fun a => a * nsp + s) hinj (u / nsp)
+  · next h =>
+    apply List.count_eq_zero.mpr
+    intro hm
+    obtain ⟨a, _, rfl⟩ := List.mem_map.mp hm
+    apply h
+    have := u_species_of nsp a s hs
+    unfold simpleUToSpeciesU selfUToSpeciesIdx at this
+    exact this
+
+theorem countNeighbors_eq (ps : List Coup) (u : Nat) :
+    countNeighbors ps u = (ps.map (·.1)).count u + (ps.map (·.2.1)).count u := by
+  unfold countNeighbors
+  rw [countNeighbors_foldl]; omega
+
+theorem countNeighbors_pairsAll (nsp : Nat) (h : 0 < nsp) (val : List Coup) (u : Nat) :
+    countNeighbors (pairsAll nsp val) u = nsp * countNeighbors val (u / nsp) := by
+  rw [countNeighbors_eq, countNeighbors_eq]
+  have hf : ((pairsAll nsp val).map (·.1)).count u = nsp * (val.map (·.1)).count (u / nsp) := by
+    unfold pairsAll
+    rw [List.map_flatMap, count_flatMap_range_single nsp _ u (u % nsp) (Nat.mod_lt _ h)]
+    · rw [List.map_flatMap]
+      apply count_flatMap_range_const
+      intro s2 hs2
+      have : (liftPairs nsp (u % nsp) s2 val).map (·.1) = (val.map (·.1)).map (fun a => a * nsp + u % nsp) := by
+        simp [liftPairs, simpleUToSpeciesU, List.map_map, Function.comp_def]
+      rw [this, count_map_lift nsp (u % nsp) u (Nat.mod_lt _ h)]
+      simp
+    · intro s hs hne
+      rw [List.map_flatMap]
+      apply count_flatMap_range_zero
+      intro s2 hs2
+      have : (liftPairs nsp s s2 val).map (·.1) = (val.map (·.1)).map (fun a => a * nsp + s) := by
+        simp [liftPairs, simpleUToSpeciesU, List.map_map, Function.comp_def]
+      rw [this, count_map_lift nsp s u hs]
+      exact if_neg (fun e => hne e.symm)
+  have hg : ((pairsAll nsp val).map (·.2.1)).count u = nsp * (val.map (·.2.1)).count (u / nsp) := by
+    unfold pairsAll
+    rw [List.map_flatMap]
+    apply count_flatMap_range_const
+    intro s1 hs1
+    rw [List.map_flatMap, count_flatMap_range_single nsp _ u (u % nsp) (Nat.mod_lt _ h)]
+    · have : (liftPairs nsp s1 (u % nsp) val).map (·.2.1) = (val.map (·.2.1)).map (fun a => a * nsp + u % nsp) := by
+        simp [liftPairs, simpleUToSpeciesU, List.map_map, Function.comp_def]
+      rw [this, count_map_lift nsp (u % nsp) u (Nat.mod_lt _ h)]
+      simp
+    · intro s hs hne
+      have : (liftPairs nsp s1 s val).map (·.2.1) = (val.map (·.2.1)).map (fun a => a * nsp + s) := by
+        simp [liftPairs, simpleUToSpeciesU, List.map_map, Function.comp_def]
+      rw [this, count_map_lift nsp s u hs]
+      exact if_neg (fun e => hne e.symm)
+  rw [hf, hg]; ring
 
 end TenpyModel.C19.Ext
